@@ -74,6 +74,7 @@ def gen(rng, tier):
 
 class C05(Prop):
     id = "C05"
+    track_states = True
     quick_runs = 2500
     thorough_runs = 40000
     assumptions = ["no worker is killed in these scenarios; shutdown forms: explicit (waited or not), context "
